@@ -205,13 +205,97 @@ impl Args {
         for (k, ty) in ALL_TYPES.iter().enumerate() {
             raws[k] = [draw_value(rng, *ty), draw_value(rng, *ty)];
         }
-        Args {
+        let mut a = Args {
             raws,
             i: draw_i32(rng),
             f_bits: draw_f64(rng).to_bits(),
             u: [draw_u32(rng), draw_u32(rng), draw_u32(rng), draw_u32(rng), draw_u32(rng)],
             y: draw_i32(rng),
+        };
+        // boundary-completing operands: choose the second operand so that the
+        // result of a sum or difference lands on (or one unit next to) a
+        // boundary of the result type
+        if rng.chance(1, 3) {
+            const DAY: i64 = 86_400_000_000;
+            let d = *rng.pick(&[-1i64, 0, 0, 1]);
+            let fit = |ty: Ty, v: i128| -> Option<i64> {
+                if v >= ty.lo() as i128 && v <= ty.hi() as i128 {
+                    Some(v as i64)
+                } else {
+                    None
+                }
+            };
+            let (date, ts, t, od) = (a.raws[0][0] as i128, a.raws[1][0] as i128, a.raws[2][0] as i128, a.raws[5][0] as i128);
+            match rng.below(8) {
+                0 => {
+                    // time + interval lands on a day boundary
+                    let k = rng.range_i64(-3, 3) as i128;
+                    if let Some(v) = fit(Ty::IntervalDT, k * DAY as i128 + DAY as i128 - t + d as i128) {
+                        a.raws[4][0] = v;
+                    }
+                }
+                1 => {
+                    // timestamp +/- interval lands on a range end
+                    let end = if rng.bool() { Ty::Timestamp.hi() } else { Ty::Timestamp.lo() } as i128;
+                    let v = if rng.bool() { end - ts } else { ts - end };
+                    if let Some(v) = fit(Ty::IntervalDT, v + d as i128) {
+                        a.raws[4][0] = v;
+                    }
+                }
+                2 => {
+                    // oracle date +/- interval lands on a range end
+                    let end = if rng.bool() { Ty::Oracle.hi() } else { Ty::Oracle.lo() } as i128;
+                    let v = if rng.bool() { end - od } else { od - end };
+                    if let Some(v) = fit(Ty::IntervalDT, v + d as i128 * 1_000_000) {
+                        a.raws[4][0] = v;
+                    }
+                }
+                3 => {
+                    // date +/- days lands on a range end
+                    let end = if rng.bool() { Ty::Date.hi() } else { Ty::Date.lo() } as i128;
+                    let v = if rng.bool() { end - date } else { date - end } + d as i128;
+                    if v >= i32::MIN as i128 && v <= i32::MAX as i128 {
+                        a.i = v as i32;
+                    }
+                    a.f_bits = ((end - ts / DAY as i128) as f64 + d as f64 * 0.5).to_bits();
+                }
+                4 => {
+                    // timestamp +/- time lands on a day boundary or a range end
+                    let frac = ts.rem_euclid(DAY as i128);
+                    let v = if rng.bool() { DAY as i128 - frac } else { frac } + d as i128;
+                    if let Some(v) = fit(Ty::Time, v) {
+                        a.raws[2][0] = v;
+                    }
+                }
+                5 => {
+                    // intervals summing to a range end
+                    let end = if rng.bool() { Ty::IntervalDT.hi() } else { Ty::IntervalDT.lo() } as i128;
+                    if let Some(v) = fit(Ty::IntervalDT, end - a.raws[4][0] as i128 + d as i128) {
+                        a.raws[4][1] = v;
+                    }
+                    let endm = if rng.bool() { Ty::IntervalYM.hi() } else { Ty::IntervalYM.lo() } as i128;
+                    if let Some(v) = fit(Ty::IntervalYM, endm - a.raws[3][0] as i128 + d as i128) {
+                        a.raws[3][1] = v;
+                    }
+                }
+                6 => {
+                    // date + months lands in the first / last supported year
+                    let (y, m, _) = simcore::civil::civil_from_days(date as i64);
+                    let target_y = if rng.bool() { 9999i128 } else { 1 };
+                    let months = (target_y - y as i128) * 12 + (rng.range_i64(1, 12) as i128 - m as i128) + d as i128 * 12;
+                    if let Some(v) = fit(Ty::IntervalYM, months) {
+                        a.raws[3][0] = v;
+                    }
+                }
+                _ => {
+                    // equal operands (differences of zero) and exact noon / midnight
+                    a.raws[1][1] = a.raws[1][0];
+                    a.raws[2][1] = a.raws[2][0];
+                    a.raws[2][0] = *rng.pick(&[0i64, 43_200_000_000, 86_399_999_999, 43_199_999_999]);
+                }
+            }
         }
+        a
     }
     pub fn vals(&self) -> Option<Vals> {
         Some(Vals {
@@ -434,8 +518,183 @@ pub fn funcs() -> Vec<FuncEntry> {
     f
 }
 
+/// A value produced by one public function and handed on to others.
+#[derive(Clone, Copy)]
+pub enum Prod {
+    D(Date),
+    Ts(Timestamp),
+    T(Time),
+    Ym(IntervalYM),
+    Dt(IntervalDT),
+    Od(OracleDate),
+}
+
+pub type ProducerEntry = (&'static str, fn(&Vals) -> Option<Prod>);
+
+pub fn producers() -> Vec<ProducerEntry> {
+    vec![
+        ("Date::try_from_ymd", |v| Date::try_from_ymd(v.y, v.u[0], v.u[1]).ok().map(Prod::D)),
+        ("Date::try_from_days", |v| Date::try_from_days(v.i).ok().map(Prod::D)),
+        ("Date::add_days", |v| v.d.add_days(v.i).ok().map(Prod::D)),
+        ("Date::sub_days", |v| v.d.sub_days(v.i).ok().map(Prod::D)),
+        ("Date::last_day_of_month", |v| Some(Prod::D(v.d.last_day_of_month()))),
+        ("Date::round_month", |v| v.d.round_month().ok().map(Prod::D)),
+        ("Date::round_year", |v| v.d.round_year().ok().map(Prod::D)),
+        ("Date::round_iso_year", |v| v.d.round_iso_year().ok().map(Prod::D)),
+        ("Date::trunc_iso_year", |v| v.d.trunc_iso_year().ok().map(Prod::D)),
+        ("Date::round_week", |v| v.d.round_week().ok().map(Prod::D)),
+        ("Date::trunc_week", |v| v.d.trunc_week().ok().map(Prod::D)),
+        ("Timestamp::extract.date", |v| Some(Prod::D(v.ts.extract().0))),
+        ("OracleDate::extract.date", |v| Some(Prod::D(v.od.extract().0))),
+        ("Date::and_hms", |v| v.d.and_hms(v.u[0] % 25, v.u[1] % 61, v.u[2] % 61, v.u[3] % 1_000_001).ok().map(Prod::Ts)),
+        ("Date::and_time", |v| Some(Prod::Ts(v.d.and_time(v.t)))),
+        ("Date::add_interval_ym", |v| v.d.add_interval_ym(v.ym).ok().map(Prod::Ts)),
+        ("Date::sub_interval_ym", |v| v.d.sub_interval_ym(v.ym).ok().map(Prod::Ts)),
+        ("Date::add_interval_dt", |v| v.d.add_interval_dt(v.dt).ok().map(Prod::Ts)),
+        ("Date::sub_interval_dt", |v| v.d.sub_interval_dt(v.dt).ok().map(Prod::Ts)),
+        ("Date::sub_time", |v| v.d.sub_time(v.t).ok().map(Prod::Ts)),
+        ("Timestamp::new", |v| Some(Prod::Ts(Timestamp::new(v.d, v.t)))),
+        ("Timestamp::add_interval_dt", |v| v.ts.add_interval_dt(v.dt).ok().map(Prod::Ts)),
+        ("Timestamp::sub_interval_dt", |v| v.ts.sub_interval_dt(v.dt).ok().map(Prod::Ts)),
+        ("Timestamp::add_interval_ym", |v| v.ts.add_interval_ym(v.ym).ok().map(Prod::Ts)),
+        ("Timestamp::sub_interval_ym", |v| v.ts.sub_interval_ym(v.ym).ok().map(Prod::Ts)),
+        ("Timestamp::add_time", |v| v.ts.add_time(v.t).ok().map(Prod::Ts)),
+        ("Timestamp::sub_time", |v| v.ts.sub_time(v.t).ok().map(Prod::Ts)),
+        ("Timestamp::add_days", |v| v.ts.add_days(v.f).ok().map(Prod::Ts)),
+        ("Timestamp::sub_days", |v| v.ts.sub_days(v.f).ok().map(Prod::Ts)),
+        ("Timestamp::last_day_of_month", |v| Some(Prod::Ts(v.ts.last_day_of_month()))),
+        ("Timestamp::round_day", |v| v.ts.round_day().ok().map(Prod::Ts)),
+        ("Timestamp::round_hour", |v| v.ts.round_hour().ok().map(Prod::Ts)),
+        ("Timestamp::round_minute", |v| v.ts.round_minute().ok().map(Prod::Ts)),
+        ("Timestamp::round_week", |v| v.ts.round_week().ok().map(Prod::Ts)),
+        ("Timestamp::round_month", |v| v.ts.round_month().ok().map(Prod::Ts)),
+        ("Timestamp::trunc_hour", |v| v.ts.trunc_hour().ok().map(Prod::Ts)),
+        ("Timestamp::from_oracle", |v| Some(Prod::Ts(Timestamp::from(v.od)))),
+        ("OracleDate::add_time", |v| v.od.add_time(v.t).ok().map(Prod::Ts)),
+        ("OracleDate::sub_time", |v| v.od.sub_time(v.t).ok().map(Prod::Ts)),
+        ("Time::try_from_hms", |v| Time::try_from_hms(v.u[0] % 25, v.u[1] % 61, v.u[2] % 61, v.u[3] % 1_000_001).ok().map(Prod::T)),
+        ("Time::add_interval_dt", |v| Some(Prod::T(v.t.add_interval_dt(v.dt)))),
+        ("Time::sub_interval_dt", |v| Some(Prod::T(v.t.sub_interval_dt(v.dt)))),
+        ("Time::from_timestamp", |v| Some(Prod::T(Time::from(v.ts)))),
+        ("Time::from_interval_dt", |v| Some(Prod::T(Time::from(v.dt)))),
+        ("Time::from_oracle", |v| Some(Prod::T(Time::from(v.od)))),
+        ("Timestamp::extract.time", |v| Some(Prod::T(v.ts.extract().1))),
+        ("IntervalDT::try_from_dhms", |v| IntervalDT::try_from_dhms(v.u[0], v.u[1] % 25, v.u[2] % 61, v.u[3] % 61, v.u[4] % 1_000_001).ok().map(Prod::Dt)),
+        ("IntervalDT::add_interval_dt", |v| v.dt.add_interval_dt(v.dt2).ok().map(Prod::Dt)),
+        ("IntervalDT::sub_interval_dt", |v| v.dt.sub_interval_dt(v.dt2).ok().map(Prod::Dt)),
+        ("IntervalDT::mul_f64", |v| v.dt.mul_f64(v.f).ok().map(Prod::Dt)),
+        ("IntervalDT::div_f64", |v| v.dt.div_f64(v.f).ok().map(Prod::Dt)),
+        ("IntervalDT::sub_time", |v| v.dt.sub_time(v.t).ok().map(Prod::Dt)),
+        ("IntervalDT::neg", |v| Some(Prod::Dt(-v.dt))),
+        ("IntervalDT::from_time", |v| Some(Prod::Dt(IntervalDT::from(v.t)))),
+        ("Time::sub_time", |v| Some(Prod::Dt(v.t.sub_time(v.t2)))),
+        ("Time::mul_f64", |v| v.t.mul_f64(v.f).ok().map(Prod::Dt)),
+        ("Time::div_f64", |v| v.t.div_f64(v.f).ok().map(Prod::Dt)),
+        ("Timestamp::sub_timestamp", |v| Some(Prod::Dt(v.ts.sub_timestamp(v.ts2)))),
+        ("Timestamp::sub_date", |v| Some(Prod::Dt(v.ts.sub_date(v.d)))),
+        ("Date::sub_timestamp", |v| Some(Prod::Dt(v.d.sub_timestamp(v.ts)))),
+        ("OracleDate::sub_timestamp", |v| Some(Prod::Dt(v.od.sub_timestamp(v.ts)))),
+        ("Timestamp::oracle_sub_date", |v| Some(Prod::Dt(v.ts.oracle_sub_date(v.od)))),
+        ("IntervalYM::try_from_ym", |v| IntervalYM::try_from_ym(v.u[0], v.u[1] % 13).ok().map(Prod::Ym)),
+        ("IntervalYM::add_interval_ym", |v| v.ym.add_interval_ym(v.ym2).ok().map(Prod::Ym)),
+        ("IntervalYM::sub_interval_ym", |v| v.ym.sub_interval_ym(v.ym2).ok().map(Prod::Ym)),
+        ("IntervalYM::mul_f64", |v| v.ym.mul_f64(v.f).ok().map(Prod::Ym)),
+        ("IntervalYM::div_f64", |v| v.ym.div_f64(v.f).ok().map(Prod::Ym)),
+        ("IntervalYM::neg", |v| Some(Prod::Ym(-v.ym))),
+        ("OracleDate::new", |v| Some(Prod::Od(OracleDate::new(v.d, v.t)))),
+        ("OracleDate::add_interval_dt", |v| v.od.add_interval_dt(v.dt).ok().map(Prod::Od)),
+        ("OracleDate::sub_interval_dt", |v| v.od.sub_interval_dt(v.dt).ok().map(Prod::Od)),
+        ("OracleDate::add_interval_ym", |v| v.od.add_interval_ym(v.ym).ok().map(Prod::Od)),
+        ("OracleDate::sub_interval_ym", |v| v.od.sub_interval_ym(v.ym).ok().map(Prod::Od)),
+        ("OracleDate::add_days", |v| v.od.add_days(v.f).ok().map(Prod::Od)),
+        ("OracleDate::sub_days", |v| v.od.sub_days(v.f).ok().map(Prod::Od)),
+        ("OracleDate::last_day_of_month", |v| Some(Prod::Od(v.od.last_day_of_month()))),
+        ("OracleDate::from_timestamp", |v| Some(Prod::Od(OracleDate::from(v.ts)))),
+        ("OracleDate::round_day", |v| v.od.round_day().ok().map(Prod::Od)),
+        ("OracleDate::round_minute", |v| v.od.round_minute().ok().map(Prod::Od)),
+        ("Timestamp::oracle_add_days", |v| v.ts.oracle_add_days(v.f).ok().map(Prod::Od)),
+        ("Timestamp::oracle_sub_days", |v| v.ts.oracle_sub_days(v.f).ok().map(Prod::Od)),
+    ]
+}
+
+/// Hands a produced value on: formats it into the sink with `pic` and runs
+/// every accessor / truncation / rounding the type has.
+fn consume(p: Prod, pic: &str, display: bool, sink: &mut FaultySink) -> &'static str {
+    macro_rules! fmt {
+        ($val:expr) => {{
+            let val = $val;
+            if display {
+                match val.format(pic) {
+                    Ok(d) => match write!(sink, "{}", d) {
+                        Ok(()) => "ok",
+                        Err(_) => "fmt::Error",
+                    },
+                    Err(e) => res::<()>(Err(e)),
+                }
+            } else {
+                match Formatter::try_new(pic) {
+                    Ok(f) => res(f.format(val, &mut *sink)),
+                    Err(e) => res::<()>(Err(e)),
+                }
+            }
+        }};
+    }
+    macro_rules! acc {
+        ($v:expr) => {{
+            let v = $v;
+            bb((DateTime::year(&v), DateTime::month(&v), DateTime::day(&v), DateTime::hour(&v), DateTime::minute(&v), DateTime::second(&v), DateTime::date(&v)));
+        }};
+    }
+    macro_rules! tr {
+        ($v:expr) => {{
+            let v = $v;
+            bb((v.trunc_century().is_ok(), v.trunc_year().is_ok(), v.trunc_iso_year().is_ok(), v.trunc_quarter().is_ok(), v.trunc_month().is_ok(), v.trunc_week().is_ok(), v.trunc_iso_week().is_ok(), v.trunc_month_start_week().is_ok(), v.trunc_day().is_ok(), v.trunc_sunday_start_week().is_ok(), v.trunc_hour().is_ok(), v.trunc_minute().is_ok()));
+            bb((v.round_century().is_ok(), v.round_year().is_ok(), v.round_iso_year().is_ok(), v.round_quarter().is_ok(), v.round_month().is_ok(), v.round_week().is_ok(), v.round_iso_week().is_ok(), v.round_month_start_week().is_ok(), v.round_day().is_ok(), v.round_sunday_start_week().is_ok(), v.round_hour().is_ok(), v.round_minute().is_ok()));
+            bb(v.last_day_of_month());
+        }};
+    }
+    match p {
+        Prod::D(v) => {
+            acc!(v);
+            tr!(v);
+            bb((v.extract(), v.day_of_week(), v.days()));
+            fmt!(v)
+        }
+        Prod::Ts(v) => {
+            acc!(v);
+            tr!(v);
+            bb((v.extract(), v.usecs(), OracleDate::from(v), Time::from(v)));
+            fmt!(v)
+        }
+        Prod::T(v) => {
+            acc!(v);
+            bb((v.extract(), v.usecs(), IntervalDT::from(v)));
+            fmt!(v)
+        }
+        Prod::Ym(v) => {
+            acc!(v);
+            bb((v.extract(), v.months(), -v));
+            fmt!(v)
+        }
+        Prod::Dt(v) => {
+            acc!(v);
+            bb((v.extract(), v.usecs(), -v, Time::from(v)));
+            fmt!(v)
+        }
+        Prod::Od(v) => {
+            acc!(v);
+            tr!(v);
+            bb((v.extract(), v.usecs(), Timestamp::from(v), Time::from(v)));
+            fmt!(v)
+        }
+    }
+}
+
 #[derive(Clone, Debug, PartialEq)]
 pub enum Call {
+    /// the value returned by one public function is formatted with `pic` and
+    /// run through the accessors / trunc / round of its type
+    Chain { producer: String, args: Args, pic: String, display: bool },
     TryNew { pic: String },
     Parse { ty: Ty, text: String, pic: String, via_formatter: bool },
     Format { ty: Ty, raw: i64, pic: String, display: bool },
@@ -447,6 +706,7 @@ pub enum Call {
 impl Call {
     pub fn func_id(&self) -> String {
         match self {
+            Call::Chain { producer, .. } => format!("chain:{}", producer),
             Call::TryNew { .. } => "Formatter::try_new".into(),
             Call::Parse { ty, via_formatter, .. } => {
                 if *via_formatter {
@@ -478,6 +738,13 @@ impl Call {
             }
         }
         match self {
+            Call::Chain { producer, args, pic, display } => format!(
+                "value returned by {} with {} -> accessors, trunc/round, then {}({})",
+                producer,
+                args.to_json(),
+                if *display { "write!(sink, format" } else { "Formatter::format" },
+                clip(pic)
+            ),
             Call::TryNew { pic } => format!("Formatter::try_new({})", clip(pic)),
             Call::Parse { ty, text, pic, via_formatter } => {
                 if *via_formatter {
@@ -501,6 +768,9 @@ impl Call {
 
     pub fn to_json(&self) -> Value {
         match self {
+            Call::Chain { producer, args, pic, display } => {
+                json!({"call": "chain", "producer": producer, "args": args.to_json(), "picture": pic, "display": display})
+            }
             Call::TryNew { pic } => json!({"call": "try_new", "picture": pic}),
             Call::Parse { ty, text, pic, via_formatter } => {
                 json!({"call": "parse", "type": ty.name(), "text": text, "picture": pic, "via_formatter": via_formatter})
@@ -518,6 +788,12 @@ impl Call {
         let ty = || Ty::from_name(v["type"].as_str().unwrap_or("")).ok_or_else(|| "type".to_string());
         let s = |k: &str| v[k].as_str().map(|x| x.to_string()).ok_or_else(|| k.to_string());
         Ok(match v["call"].as_str().ok_or("call")? {
+            "chain" => Call::Chain {
+                producer: s("producer")?,
+                args: Args::from_json(&v["args"])?,
+                pic: s("picture")?,
+                display: v["display"].as_bool().unwrap_or(false),
+            },
             "try_new" => Call::TryNew { pic: s("picture")? },
             "parse" => Call::Parse {
                 ty: ty()?,
@@ -579,8 +855,30 @@ fn res<T>(r: Result<T, sqldatetime::Error>) -> &'static str {
 /// Executes the call against the library. Everything the harness itself needs
 /// has been allocated before; inside, only the library allocates.
 /// Returns an outcome class name ("ok" or the error variant).
-pub fn execute(call: &Call, funcs: &[FuncEntry], vals: Option<&Vals>, sink: &mut FaultySink) -> &'static str {
+/// Both function tables, built once per process (never while the allocator is armed).
+pub struct Tables {
+    pub funcs: Vec<FuncEntry>,
+    pub prods: Vec<ProducerEntry>,
+}
+
+impl Tables {
+    pub fn new() -> Self {
+        Tables { funcs: funcs(), prods: producers() }
+    }
+}
+
+pub fn execute(call: &Call, tables: &Tables, vals: Option<&Vals>, sink: &mut FaultySink) -> &'static str {
+    let funcs = &tables.funcs;
     match call {
+        Call::Chain { producer, pic, display, .. } => {
+            match (tables.prods.iter().find(|(n, _)| n == producer), vals) {
+                (Some((_, f)), Some(v)) => match f(v) {
+                    Some(p) => consume(p, pic, *display, sink),
+                    None => "no-value",
+                },
+                _ => "not-a-call",
+            }
+        }
         Call::TryNew { pic } => res(Formatter::try_new(pic)),
         Call::Parse { ty, text, pic, via_formatter } => {
             macro_rules! p {
@@ -893,7 +1191,8 @@ fn small_text(rng: &mut Rng) -> String {
     (0..n).map(|_| rng.pick(&SMALL_ALPHABET).to_string()).collect()
 }
 
-pub fn gen_call(rng: &mut Rng, funcs: &[FuncEntry]) -> Call {
+pub fn gen_call(rng: &mut Rng, tables: &Tables) -> Call {
+    let funcs = &tables.funcs;
     match rng.below(100) {
         0..=7 => Call::TryNew { pic: gen_picture(rng) },
         8..=44 => {
@@ -907,6 +1206,10 @@ pub fn gen_call(rng: &mut Rng, funcs: &[FuncEntry]) -> Call {
             Call::Format { ty, raw: draw_value(rng, ty), pic: gen_picture(rng), display: rng.chance(1, 3) }
         }
         75..=77 => Call::Now { ty: *rng.pick(&[Ty::Date, Ty::Timestamp, Ty::Oracle]) },
+        81..=88 => {
+            let (name, _) = rng.pick(&tables.prods);
+            Call::Chain { producer: name.to_string(), args: Args::draw(rng), pic: gen_picture(rng), display: rng.chance(1, 3) }
+        }
         78..=80 => Call::FromTime { ty: *rng.pick(&[Ty::Timestamp, Ty::Oracle]), raw: draw_value(rng, Ty::Time) },
         _ => {
             let (name, _) = rng.pick(funcs);
